@@ -1383,6 +1383,10 @@ func taintWrites(ci *concInfo, seeds map[*ssa.Function]string) []taintSink {
 	}
 	fieldT := map[fkey]string{}
 	paramT := map[*ssa.Parameter]string{}
+	// struct values handed over by value: which of their fields carry a shared reference, per parameter (known
+	// only when every call site passes a local struct whose fields can be traced)
+	paramFieldT := map[*ssa.Parameter]map[int]string{}
+	paramFieldUnknown := map[*ssa.Parameter]bool{}
 	retT := map[*ssa.Function]string{}
 	changed := true
 	mark := func(v ssa.Value, src string) {
@@ -1422,6 +1426,39 @@ func taintWrites(ci *concInfo, seeds map[*ssa.Function]string) []taintSink {
 							if inModule(cal) {
 								args := x.Call.Args
 								for i, a := range args {
+									if i < len(cal.Params) {
+										if st, isStruct := a.Type().Underlying().(*types.Struct); isStruct {
+											prm := cal.Params[i]
+											known := false
+											if ld, ok := a.(*ssa.UnOp); ok && ld.Op == token.MUL {
+												if al, ok := ld.X.(*ssa.Alloc); ok {
+													known = true
+													for fi := 0; fi < st.NumFields(); fi++ {
+														srcs, ok := localFieldSources(al, fi, 0)
+														if !ok {
+															known = false
+															break
+														}
+														for _, v := range srcs {
+															if s, ok := tainted[v]; ok {
+																if paramFieldT[prm] == nil {
+																	paramFieldT[prm] = map[int]string{}
+																}
+																if _, had := paramFieldT[prm][fi]; !had {
+																	paramFieldT[prm][fi] = s
+																	changed = true
+																}
+															}
+														}
+													}
+												}
+											}
+											if !known && !paramFieldUnknown[prm] {
+												paramFieldUnknown[prm] = true
+												changed = true
+											}
+										}
+									}
 									if s, ok := tainted[a]; ok && i < len(cal.Params) {
 										if _, had := paramT[cal.Params[i]]; !had {
 											paramT[cal.Params[i]] = s
@@ -1469,6 +1506,21 @@ func taintWrites(ci *concInfo, seeds map[*ssa.Function]string) []taintSink {
 								// a struct that lives in a local of this function and is only ever filled field by field: the
 								// field holds what was stored into THIS struct, not what some other struct of the type holds
 								if al, ok := fa.X.(*ssa.Alloc); ok {
+									// the spilled copy of a struct parameter: what the call sites put into this field
+									var prm *ssa.Parameter
+									nSt := 0
+									for _, r := range *al.Referrers() {
+										if st, ok := r.(*ssa.Store); ok && st.Addr == ssa.Value(al) {
+											nSt++
+											prm, _ = st.Val.(*ssa.Parameter)
+										}
+									}
+									if nSt == 1 && prm != nil && !paramFieldUnknown[prm] && len((cgView{ci.c}).callersOf(f)) > 0 {
+										if s, ok := paramFieldT[prm][fa.Field]; ok {
+											mark(x, s)
+										}
+										continue
+									}
 									if srcs, ok := localFieldSources(al, fa.Field, 0); ok {
 										for _, v := range srcs {
 											if s, ok := tainted[v]; ok {
